@@ -546,7 +546,7 @@ func (x *TopicsIndex) scanMessages(filter string, d int, n *particle, pks []pack
 	key, hasNext := isolateParticle(filter, d)
 	if key == "+" || key == "#" || d == -1 {
 		for _, adjacent := range n.particles.getAll() {
-			if d == 0 && adjacent.key == SysPrefix {
+			if d == 0 && strings.HasPrefix(adjacent.key, "$") { // [MQTT-4.7.2-1]
 				continue
 			}
 
